@@ -3,6 +3,7 @@ import json
 import os
 
 import authoritycommon as ac
+import governancecommon as gc
 import schedcommon as sc
 from verifkit import Infra
 
@@ -67,6 +68,13 @@ def run(ctx):
     if ctx.replay:
         art = json.load(open(ctx.replay))
         how = art.get("how") or {}
+        if str(how.get("mode", "")).startswith("governance"):
+            if how["mode"] == "governance-chain":
+                gc.chain(ctx)
+            else:
+                gc.replay(ctx, int(how.get("num", 40)))
+            ctx.cov["rule"] = "replay of " + ctx.replay
+            return
         if str(how.get("mode", "")).startswith("authority"):
             a = how.get("driver_args")
             if how["mode"] in ("authority-chain", "authority-bignet") and a:
@@ -84,6 +92,11 @@ def run(ctx):
         ctx.cov["rule"] = "replay of " + ctx.replay
         return
 
+    if os.environ.get("C05_ONLY") == "governance":
+        ev, dn = gc.step(ctx)
+        ctx.cov["evaluations"], ctx.cov["distinct_nontrivial"] = ev, dn
+        ctx.cov["rule"] = "C05_ONLY=governance: partial run"
+        return
     if os.environ.get("C05_ONLY") == "authority":
         # development shortcut: only the authority step (the evidence file is then partial)
         ev, dn = ac.step(ctx)
@@ -117,6 +130,9 @@ def run(ctx):
 
     # growth (DESIGN section 8): the authority contract and the validator's candidate cache that feed the scheduler
     auth_ev, auth_dn = ac.step(ctx)
+    # growth: the governance that adds / revokes authorities and sets the parameters consensus reads
+    gov_ev, gov_dn = gc.step(ctx)
+    auth_ev, auth_dn = auth_ev + gov_ev, auth_dn + gov_dn
 
     if not demo_ok and not ctx.violations and not ctx.known_hit:
         raise Infra("binding demonstration could not be performed (untouched demo trace rejected) although the full traces conform")
@@ -148,7 +164,9 @@ def run(ctx):
                        "whose seed block was NOT on the best chain when asked; authority step: one evaluation = one replayed Authority.tla step "
                        "compared in full or one real block validated warm/cold/spec, non-trivial = distinct replayed behaviour with an "
                        "effective add, an effective revoke and a cache hit after an invalidation, or distinct proposer list after a "
-                       "block that changed it; non-trivial (scheduler) = at least two eligible proposers AND some "
+                       "block that changed it; governance step: one evaluation = one transaction of a replayed Governance.tla behaviour executed on "
+                       "the real contracts and compared in full, non-trivial = distinct behaviour in which a proposal was executed; "
+                       "non-trivial (scheduler) = at least two eligible proposers AND some "
                        "Schedule answer had to skip a slot AND some Updates answer switched somebody off; distinct = distinct "
                        "(kind, interval, parent time, list size, order among eligible, me[, parent number for v1]) key, counted by the driver")
     # every permutation must have been realised on the real code for v2 and for the equal-weight pos vector
